@@ -181,6 +181,7 @@ def gen_case(rng, index, tier):
     L, trashes, entries = trashworld.make(rng, index, n_entries=n, names=names,
                                           dates=['2005-05-05T05:05:05'],
                                           kinds=kinds)
+    trashworld.mount_on_payload(L, rng, entries, p=0.06)
     # hand-edited / foreign .trashinfo files with further Path= lines after
     # the first: the first one is the entry's location (for every command)
     for e in entries:
@@ -269,7 +270,7 @@ def run_case(case):
                     exp = None
             else:
                 exp = m_spec if m_spec == m_fn else None
-            if e['kind'] in ('tree_locked', 'tree_readonly') and case.get('drop_caps') \
+            if trashworld.unremovable(e, case) \
                     and exp is not False and st != 'gone':
                 # a matching entry whose payload cannot be removed: what is
                 # left keeps its .trashinfo, the failure is reported, and the
@@ -315,6 +316,9 @@ def run_case(case):
                 'Permission denied' in r.errtext() else ''),
                                       'detail': {'run': r.brief()}})
         out['nontrivial'] = any(c in pat for c in '*?[') and nm > 0 and nk > 0
+        if any(e.get('mountpoint') for e in case['entries']):
+            obs['payload_is_a_mount_point'] = 1
+            out['replayable'] = False    # (a real mount would hide the content)
         out['sample_obs'] = {'pattern': pat, 'removed': nm, 'kept': nk,
                              'names': [os.path.basename(e['loc'])
                                        for e in case['entries']]}
